@@ -154,7 +154,7 @@ func configs05(tier string) []xplore.Config {
 func run05(cfg xplore.Config, ch vrt.Chooser, trace bool) (xplore.Outcome, *vrt.Result) {
 	s := cfg.Data.(sub05)
 	var out xplore.Outcome
-	res := vrt.Run(ch, vrt.Options{Trace: trace}, func() {
+	res := vrt.Run(ch, vrt.Options{Reverse: cfg.Reverse, Trace: trace}, func() {
 		w := newWorld([]string{"t1", "t2"})
 		for _, l := range content05 {
 			p := mkPath(l.path)
